@@ -130,8 +130,14 @@ func runC03(cx *ctx) {
 				idIdx := pos % len(ids)
 				cx.ru.Do(func() *h.Case {
 					f := append(append([]byte(nil), file[:pos]...), file[pos+1:]...)
+					or := headerOracle(file)
+					if bytes.HasPrefix(f, hdrBytes) {
+						// deleting a byte that equals its successor run up to the payload (the final LF when the nonce starts
+						// with LF) leaves the header bytes intact: this is a payload edit (C02), not a header edit
+						or = nil
+					}
 					return fdecCase("delete", f, ids[idIdx:idIdx+1], idDs[idIdx:idIdx+1],
-						fmt.Sprintf("recipients=[%s] delete byte %d of %d header bytes", labelsOf(ps), pos, len(hdrBytes)), headerOracle(file))
+						fmt.Sprintf("recipients=[%s] delete byte %d of %d header bytes", labelsOf(ps), pos, len(hdrBytes)), or)
 				})
 			}
 		}
